@@ -67,10 +67,14 @@ func (pp *protoPair) fieldDescriptor() protoreflect.FieldDescriptor {
 }
 
 func (pp *protoPair) getMutableValue(createIfNotSet bool) (protoreflect.Value, error) {
-	if !pp.isSet() {
-		if !createIfNotSet {
+	if !createIfNotSet {
+		if !pp.isSet() {
 			return protoreflect.Value{}, fmt.Errorf("field %s is not set", pp.fieldInParent.FullName())
 		}
+		// Read path. Mutable may write to the parent even when the field is
+		// set: a generated oneof wrapper holding a nil message pointer is
+		// 'set', and Mutable fills the pointer in. Get never writes.
+		return pp.parentMessage.Get(pp.fieldInParent), nil
 	}
 	return pp.parentMessage.Mutable(pp.fieldInParent), nil
 }
